@@ -176,6 +176,9 @@ class C14(Check):
         plan["lat"] = rng.choice([[0.0001, 0.0005], [0.001, 0.005]])
         plan["net_seed"] = rng.getrandbits(30)
         plan["think"] = rng.choice([0.0, 0.0, 0.001, 0.01])
+        # a tester that hangs up without reading its answer (the ECU's reply then meets a closed socket: connection reset);
+        # the ECU must go on serving the others and accept new connections
+        plan["rude"] = {"at": rng.choice([0.0, 0.002, 0.05]), "pdu": rng.choice(["3e00", "22f190", "1001", "27"])} if rng.random() < 0.12 else None
         return plan
 
     def simplify(self, plan: dict[str, Any]) -> Any:
@@ -300,8 +303,28 @@ class C14(Check):
                         await asyncio.sleep(plan["think"])
                 await tr.close()
 
+            async def rude_client() -> None:
+                await asyncio.sleep(plan["rude"]["at"])
+                tr = await cls.connect(uri)
+                await tr.write(bytes.fromhex(plan["rude"]["pdu"]))
+                await tr.close()
+                holder["rude_done"] = True
+
             tasks = [loop.create_task(client_task(k, reqs)) for k, reqs in enumerate(plan["clients"])]
+            if plan.get("rude"):
+                tasks.append(loop.create_task(rude_client()))
             await asyncio.gather(*tasks)
+            if plan.get("rude") and not stop["flag"]:
+                # afterwards a new tester is served as if nothing had happened
+                await asyncio.sleep(0.05)
+                tr = await cls.connect(uri)
+                client = UDSClient(tr, timeout=1.0, max_retry=0)
+                try:
+                    # (any answer will do: the ECU's state is shared with the other testers)
+                    await client.request(service.TesterPresentRequest(suppress_response=False))
+                except Exception as e:  # noqa: BLE001
+                    violation(res, "C14/after-rude-client", f"C14/after-rude-client:{type(e).__name__}", f"after a client hung up without reading its answer, a new client's 3e00 ended with {e!r}")
+                await tr.close()
             return None
 
         try:
@@ -329,6 +352,8 @@ class C14(Check):
                     bump(res["faults"], k, net.counters[k])
         if len(plan["clients"]) > 1:
             bump(res["faults"], "concurrent_clients", len(plan["clients"]))
+        if holder.get("rude_done"):
+            bump(res["faults"], "client_hung_up_without_reading_its_answer")
         if holder.get("idled"):
             bump(res["faults"], "idle_beyond_inactivity_limit_between_seed_and_key", holder["idled"])
         return res
